@@ -52,6 +52,26 @@ def c08_diatonic(ki: int, d: int) -> bool:
     return progressions.to_chords([NUM_UP[d], NUM_LO[d] + "7"], key) == [tri, sev]
 
 
+def c08_repeatable(ki: int, d: int, seven: bool, how: int) -> bool:
+    """a numeral denotes the same chord every time it is asked for, also after the caller edited an earlier answer
+    in place (the chords handed out are the caller's)"""
+    key = pick(KEYS, ki)
+    d = enum(d, 0, 7)
+    want = _stack(key, d, 4 if seven else 3)
+    num = NUM_UP[d] + ("7" if seven else "")
+    how = enum(how, 0, 3)
+    if how == 0:
+        r = progressions.to_chords([num], key)
+        r[0].append("X")
+    elif how == 1:
+        r = getattr(chords, FUNCS[d] + ("7" if seven else ""))(key)
+        del r[1:]
+    else:
+        r = (chords.sevenths if seven else chords.triads)(key)
+        r[d][0] = "X"
+    return progressions.to_chords([num], key) == [want] and getattr(chords, FUNCS[d] + ("7" if seven else ""))(key) == want and (chords.sevenths if seven else chords.triads)(key)[d] == want
+
+
 def c08_prefix(pre: str, ki: int, d: int, seven: bool) -> bool:
     key = pick(P["keys"], ki)
     d = enum(d, 0, 7)
@@ -258,6 +278,7 @@ def claims(tier):
         for lo in range(0, len(psuf), 4):
             sub_ = psuf[lo : lo + 4]
             cl.append(Claim("prefix_suffix[%s,%d-%d]" % (pk, lo, lo + len(sub_) - 1), c08_prefix_suffix, params={"keys": [pk], "suffixes": sub_}, group="c08_prefix_suffix", pre=[lambda pre, ki, d, si: spelled("C" + pre, 2) and ki == 0 and 0 <= d < 7 and 0 <= si < len(P["suffixes"])], timeout=900 if q else 3000, bounds="key %s: prefix = every string over {#,b} of length <= 2 (symbolic) in front of numeral + suffix %r; 7 degrees" % (pk, sub_)))
+    cl.append(Claim("repeatable", c08_repeatable, pre=[lambda ki, d, how: 0 <= ki < 30 and 0 <= d < 7 and 0 <= how < 3], timeout=900 if q else 3000, bounds="30 keys x 7 degrees x triad/seventh: the chord of a numeral / function name / table row after an earlier answer was edited in place (3 ways)"))
     cl.append(Claim("unrecognised", c08_unrecognised, pre=[lambda s: 1 <= len(s) <= 3], timeout=900 if q else 3000, bounds="every unicode string of length 1..3 without '#'/'b' whose leading I/V run is not a numeral"))
     if not q:
         cl.append(Claim("unrecognised[len4,numeral-led]", c08_unrecognised, group="c08_unrecognised", pre=[lambda s: len(s) == 4 and s[0] in "IViv"], timeout=3000, per_path=300, bounds="every unicode string of length 4 starting with I, V, i or v, without '#'/'b', whose leading I/V run is not a numeral"))
